@@ -692,7 +692,10 @@ def report_table(chk, F, rule, config):
         if is_call(v, r'^teardown::teardown_report$'):
             return 'teardown_report'
         if v[0] == 'field' and v[1][0] == 'as' and v[1][2] == 'Return':
-            return 'mocked-output'
+            # (a canned exit code does not replace the verification: the instance must still be verified when it is dropped at the end of
+            #  report() - so nothing on this path may tear it down and throw the verdict away)
+            torn = [e.data[1] for e in p.calls(r'^teardown::(teardown|teardown_report|teardown_panic)$')]
+            return 'mocked-output' + ('+%s(verdict discarded)' % torn[0].rsplit('::', 1)[-1] if torn else '')
         return 'other:' + show(v)
     rows = tables.abstract(paths, atom, outcome)
     tables.check_table(chk, rule, fn, rows, [
